@@ -264,7 +264,7 @@ func (a *AggregatePlan) batchGetAggrKeys(chunk []KVPair, ctx *ExecuteCtx) ([]str
 			if err != nil {
 				return nil, err
 			}
-			aggKey = append(aggKey, bval...)
+			aggKey = appendAggrKeyPart(aggKey, bval)
 		}
 		ret[i] = string(aggKey)
 	}
@@ -511,9 +511,16 @@ func (a *AggregatePlan) getAggrKey(key []byte, val []byte, ctx *ExecuteCtx) (str
 		if err != nil {
 			return "", err
 		}
-		gkey += string(bval)
+		gkey = string(appendAggrKeyPart([]byte(gkey), bval))
 	}
 	return gkey, nil
+}
+
+// appendAggrKeyPart appends one group by value to the group key. The length
+// prefix keeps the values apart: ('a', 'bc') and ('ab', 'c') are two groups.
+func appendAggrKeyPart(key []byte, part []byte) []byte {
+	key = append(key, []byte(fmt.Sprintf("%d:", len(part)))...)
+	return append(key, part...)
 }
 
 func (a *AggregatePlan) execExpr(kvp KVPair, expr Expression, ctx *ExecuteCtx) ([]byte, error) {
